@@ -30,16 +30,17 @@ import (
 
 // depth[regime] = {representative depth quick, thorough, full-alphabet depth quick, thorough}
 var depths = map[string][4]int{
-	"early":    {3, 4, 1, 2},
-	"late":     {2, 3, 1, 2},
-	"inactive": {2, 3, 1, 2},
-	"canceled": {2, 3, 1, 1},
-	"v2":       {2, 3, 1, 1},
-	"v2active": {2, 3, 1, 1},
-	"returned": {2, 3, 1, 1},
-	"v2ready":  {2, 3, 1, 1},
-	"public":   {2, 3, 1, 1},
-	"claim":    {1, 2, 1, 2},
+	"early":      {3, 4, 1, 2},
+	"late":       {2, 3, 1, 2},
+	"inactive":   {2, 3, 1, 2},
+	"canceled":   {2, 3, 1, 1},
+	"v2":         {2, 3, 1, 1},
+	"v2active":   {2, 3, 1, 1},
+	"returned":   {2, 3, 1, 1},
+	"v2ready":    {2, 3, 1, 1},
+	"public":     {2, 3, 1, 1},
+	"claim":      {1, 2, 1, 2},
+	"illegalact": {1, 2, 1, 2},
 }
 
 // artefact of a violation / replay
